@@ -53,6 +53,8 @@ class llc (packet_base):
     s = "[LLC"
     if self.has_snap:
       s += "+SNAP t:%04x" % (self.eth_type,)
+    elif self.ssap is None or self.dsap is None:
+      s += " (incomplete)"
     else:
       s += " ssap:0x%02x dsap:0x%02x c:%s" % (self.ssap, self.dsap,
                                               self.control)
